@@ -10,7 +10,7 @@ import os
 import importlib.util
 import z3
 from api import obligation, opt_is_some, opt_payload
-from symex import IntV, Agg, EnumV, State
+from symex import IntV, Agg, EnumV, State, Unsupported
 import api as _api
 
 _saved = list(_api.REGISTRY)
@@ -87,7 +87,7 @@ def td_input(o, tag):
 
 
 def _round_ob(fn, kind):
-    @obligation(prop="C17", tier="thorough", timeout=900,
+    @obligation(prop="C17", tier="quick", timeout=900,
                 desc=f"{fn} on NaiveDateTime: Ok(r) exactly when the span is positive, expressible in i64 nanoseconds and the timestamp fits in i64 nanoseconds; then r is the {kind} multiple of the span counted from the Unix epoch, |r - input| < span, multiples are returned unchanged (hence idempotent); errors are classified as documented; the function panics only if the rounded instant itself is not representable (never inside the i64-nanosecond window)",
                 bounds="all non-leap NaiveDateTimes (as instants) x all in-range TimeDeltas; symbolic divisor via the division lemma; timestamp_nanos_opt and NaiveDateTime +/- TimeDelta through their proved contracts",
                 outside="leap-second operands (C07 rules apply); the DateTime<Tz> instantiation is covered by Kani glue harnesses")
@@ -105,17 +105,26 @@ def _round_ob(fn, kind):
         stamp_ok = z3.And(N >= I64MIN, N <= I64MAX)
         o.claim("ok_iff", ok == z3.And(span_ok, stamp_ok))
         res = inst_of(r.payload[0][0])
-        # Euclidean remainder of the stamp by the span, introduced by its defining property (exists uniquely for v > 0)
-        q, e = z3.Int("q_ref"), z3.Int("e_ref")
-        o.require(z3.Implies(v > 0, z3.And(N == q * v + e, e >= 0, e < v)))
+        # "res is a multiple of the span": exhibited by a witness built from the code's own truncating quotient
+        # (the only symbolic division executed: stamp % span, with its defining lemma stamp == q*span + rem).
+        divs = list(o.ex.div_cache.values())
+        if len(divs) != 1:
+            raise Unsupported(f"expected exactly one symbolic division in {fn}, found {len(divs)}")
+        qc, rc = divs[0]
+        qv = qc * v                       # the same product term as in the division lemma: the claims stay linear in it
+        floor_mult = z3.If(rc >= 0, qv, qv - v)
+        ceil_mult = z3.If(rc > 0, qv + v, qv)
         if kind == "greatest-not-after":
-            want = N - e
+            o.claim("is_a_multiple_of_the_span", z3.Implies(ok, res == floor_mult))
+            o.claim("greatest_not_after", z3.Implies(ok, z3.And(res <= N, N < res + v)))
         elif kind == "least-not-before":
-            want = z3.If(e == 0, N, N - e + v)
+            o.claim("is_a_multiple_of_the_span", z3.Implies(ok, res == ceil_mult))
+            o.claim("least_not_before", z3.Implies(ok, z3.And(res >= N, N > res - v)))
         else:
-            want = z3.If(2 * e >= v, z3.If(e == 0, N, N - e + v), N - e)
-        o.claim("right_multiple", z3.Implies(ok, res == want))
+            o.claim("is_a_multiple_of_the_span", z3.Implies(ok, z3.Or(res == floor_mult, res == ceil_mult)))
+            o.claim("nearest_ties_up", z3.Implies(ok, z3.And(2 * (res - N) <= v, 2 * (res - N) > -v)))
         o.claim("within_one_span", z3.Implies(ok, z3.And(res - N < v, N - res < v)))
+        o.claim("multiples_unchanged", z3.Implies(z3.And(ok, rc == 0), res == N))
         err = r.payload.get(1, [None])[0]
         if err is not None:
             # RoundingError: DurationExceedsTimestamp=0, DurationExceedsLimit=1, TimestampExceedsLimit=2
